@@ -562,6 +562,69 @@ def r6_isa_not_subsplit(ctx):
     yield Ob('segment:Segment.set special case addresses ISA16', ok, ctx.floc(fn), '' if ok else 'no `ele_idx == 15` test')
 
 
+def r7_format_delimiters(ctx):
+    """formatting puts each delimiter where parsing looks for it: the text returned by Segment.format is
+    id + element separator + elements joined by the element separator + terminator, every element formatted with the
+    component separator; Composite.format joins the components with the component separator.  The returned
+    expressions are evaluated with three distinct delimiter characters."""
+    fn = ctx.func('segment', 'Segment.format')
+    rets = [n for n in ast.walk(fn) if isinstance(n, ast.Return) and n.value is not None]
+    if len(rets) != 1:
+        raise AnalysisError('Segment.format: single return not found')
+    class _Comp(object):
+        _sa_model = True
+
+        def format(self, st=None):
+            return 'v%sw' % st
+
+    class _Ele(object):
+        _sa_model = True
+
+        def __init__(self, v):
+            self.value = v
+
+        def format(self):
+            return self.value
+
+        def get_value(self):
+            return self.value
+
+        def __repr__(self):
+            return self.value
+    env = {'self.seg_id': 'ID', 'ele_term': '*', 'seg_term': '~', 'subele_term': ':', 'str_elems': ('a:b', 'c'), 'self.elements': (_Comp(), _Comp()), 'i': 1}
+    funcs = {}
+    try:
+        got = A.ev(rets[0].value, env, funcs)
+    except (A.NotClosed, TypeError) as e:
+        raise AnalysisError('Segment.format: returned expression not closed: %s' % e)
+    ok = got in ('ID*a:b*c~', 'ID*v:w*v:w~')
+    yield Ob('segment:Segment.format = id, element separator, elements joined by it, terminator', ok, ctx.floc(fn, rets[0]),
+             '' if ok else 'with * : ~ the expression `%s` gives %r' % (norm(rets[0].value, 70), got))
+    calls = [c for c in A.calls_in(fn) if A.call_target(c)[1] == 'format' and not A.is_str(c.func.value) and path_of(c.func.value) not in (None, 'self')]
+    ok = bool(calls) and all([path_of(a) for a in c.args] == ['subele_term'] for c in calls)
+    yield Ob('segment:Segment.format formats every element with the component separator', ok, ctx.floc(fn),
+             '' if ok else 'element format calls: %s' % [norm(c) for c in calls])
+    fc = ctx.func('segment', 'Composite.format')
+    rets = [n for n in ast.walk(fc) if isinstance(n, ast.Return) and n.value is not None]
+    if len(rets) != 1:
+        raise AnalysisError('Composite.format: single return not found')
+    try:
+        got = A.ev(rets[0].value, {'subele_term': ':', 'self.elements': (_Ele('a'), _Ele('b'), _Ele('')), 'i': 1, 'ele_term': '*', 'seg_term': '~'},
+                   {'Element.__repr__': lambda x: x.value, 'str': str, 'repr': repr})
+    except (A.NotClosed, TypeError) as e:
+        raise AnalysisError('Composite.format: returned expression not closed: %s' % e)
+    ok = got == 'a:b'
+    yield Ob('segment:Composite.format joins the components with the component separator', ok, ctx.floc(fc, rets[0]),
+             '' if ok else 'with : the expression `%s` gives %r' % (norm(rets[0].value, 70), got))
+    # defaults: an omitted delimiter argument falls back to the segment's own delimiter of the same name
+    for f_, names in ((fn, ('seg_term', 'ele_term', 'subele_term')), (fc, ('subele_term',))):
+        for nm in names:
+            dflt = [n for n in ast.walk(f_) if isinstance(n, ast.Assign) and path_of(n.targets[0]) == nm]
+            ok = bool(dflt) and all(path_of(d.value) == 'self.' + nm for d in dflt)
+            yield Ob('segment:%s default for %s is the object\'s own %s' % (f_._qual if hasattr(f_, '_qual') else f_.name, nm, nm), ok, ctx.floc(f_),
+                     '' if ok else 'defaults: %s' % [norm(d) for d in dflt])
+
+
 RULES = [
     Rule('C01.R1', 'literal open() modes valid on every supported interpreter; reader opens the path for text reading', r1_open_modes, floor=15),
     Rule('C01.R2', 'ISA header offsets = offsets derived from dataele widths; version whitelist = control maps', r2_isa_offsets, floor=9),
@@ -569,4 +632,5 @@ RULES = [
     Rule('C01.R4', 'Segment delimiters come from the header; get_term tuple positions agree', r4_delimiter_provenance, floor=9),
     Rule('C01.R5', 'strip set in front of a token is exactly {CR, LF}; leading blank reported', r5_strip_set, floor=1),
     Rule('C01.R6', 'ISA elements are never split at the component separator', r6_isa_not_subsplit, floor=2),
+    Rule('C01.R7', 'format puts each delimiter where the parser looks for it; defaults are the segment own delimiters', r7_format_delimiters, floor=5),
 ]
